@@ -64,6 +64,7 @@ type FuncContract struct {
 	DetermProps   []string
 	Pure          bool
 	Bounded       string
+	BoundedChecks []*BoundedCheck // bounded stand-ins: exhaustive runs of the real function over a stated finite domain (never counted as proved)
 	Trusted       bool // body not verified although it exists (reason required)
 	TrustedWhy    string
 	TrustedFrame  bool // modifies clause assumed, body otherwise verified
@@ -119,6 +120,11 @@ type ChanInv struct {
 	Src      string
 	E        Expr
 	PkgPath  string
+}
+
+type BoundedCheck struct {
+	Label, File, Test, Bound string
+	Props                    []string
 }
 
 type ReplayInput struct {
@@ -564,7 +570,17 @@ func (cs *ContractSet) parseFile(path, pkgPath string) error {
 				cur.Trusted = true
 				cur.TrustedWhy = rest
 			case "bounded":
-				cur.Bounded = rest
+				// bounded LABEL[props]: <test file under /verif/bounded> <TestName> :: <stated bound>
+				label, props, body := splitLabel(rest)
+				if label == "" {
+					return errf("bounded needs a label")
+				}
+				parts := strings.SplitN(body, "::", 2)
+				fs := strings.Fields(parts[0])
+				if len(fs) != 2 || len(parts) != 2 {
+					return errf("expected: bounded label: <file> <TestName> :: <bound>")
+				}
+				cur.BoundedChecks = append(cur.BoundedChecks, &BoundedCheck{Label: label, Props: props, File: fs[0], Test: fs[1], Bound: strings.TrimSpace(parts[1])})
 			case "replay":
 				cur.Replay = append(cur.Replay, rest)
 				if strings.HasPrefix(rest, "assume ") {
